@@ -73,6 +73,8 @@ class Profile:
             "entropy_seed": rng.randrange(1 << 30),
             "simset": False,
             "perm_seed": rng.randrange(1 << 30),
+            "prob_threshold": rng.choice([None, None, None, 1e-12, 1e-6, 1e-3,
+                                          0.02, 0.04]),
         }
 
     def swarm(self, rng) -> dict:
